@@ -57,8 +57,9 @@ DelivCats(m) ==
             \cup (IF okStatus /\ m.label # "ANY" /\ m.status \in {200, 206} /\ ((o.xcache = "HIT") # (m.label = "HIT"))
                   THEN {"C03"} ELSE {})
             \cup (IF okStatus /\ m.label \in {"HIT", "REVALIDATED"} /\ m.src = "store" /\
-                     ~(/\ o.age >= Tick * m.age /\ o.age <= Tick * m.age + 1
-                       /\ o.ttl >= Tick * m.ttl - 1 /\ o.ttl <= Tick * m.ttl)
+                     \* (real seconds that went by since the behaviour began widen the window)
+                     ~(/\ o.age >= Tick * m.age /\ o.age <= Tick * m.age + F(Line, "elapsed", 1)
+                       /\ o.ttl >= Tick * m.ttl - F(Line, "elapsed", 1) /\ o.ttl <= Tick * m.ttl)
                   THEN {"C03"} ELSE {})
 
 \* a delivery the specification does not make in this step
@@ -167,8 +168,7 @@ TReply ==
     /\ LET x == CHOOSE y \in 1..MaxX : IsContact(y)
            ct == contacts[x]
            is200 == Line.status = 200 /\ ct.kind \in {"get", "range"}
-           newlyStored == ObservedStored(ct.r) /\ ObservedVer(ct.r) = origin[ct.r].ver
-                          /\ ~(store[ct.r].present /\ store[ct.r].ver = origin[ct.r].ver /\ Fresh(store[ct.r]))
+           newlyStored == ObservedStored(ct.r) /\ ObservedVer(ct.r) = origin[ct.r].ver /\ Line.storedNew[ToString(ct.r)]
            st == IF ~is200 THEN FALSE
                  ELSE IF Storable(origin[ct.r].form) = "either" THEN newlyStored
                  ELSE IF ~ct.leader /\ ct.kind = "get" THEN newlyStored /\ Storable(origin[ct.r].form) = "yes"
